@@ -36,6 +36,8 @@ fn word_strategy() -> impl Strategy<Value = String> {
         1 => Just("a'b'c".to_string()),
         1 => Just("$HOME".to_string()),
         1 => Just("~".to_string()),
+        // tilde expansion with a login name that exists
+        1 => prop_oneof![Just("~root".to_string()), Just("~root/.profile".to_string()), Just("~daemon".to_string()), Just("~bin/x".to_string()), Just("a~root".to_string()), Just("~root~".to_string())],
         1 => Just("a=b".to_string()),
         // complete glob patterns made of otherwise harmless characters
         2 => ("[abXY01_.-]{0,3}", "[abcXYZ019]{1,3}", "[abXY01_.-]{0,3}").prop_map(|(a, b, c)| format!("{}[{}]{}", a, b, c)),
@@ -94,6 +96,11 @@ fn plain_prog_strategy() -> impl Strategy<Value = String> {
         }
         if s.is_empty() || s == "." || s == ".." || BUILTINS.contains(&s.as_str()) || RESERVED.contains(&s.as_str()) {
             s.push_str("_x");
+        }
+        // bash takes a command word that starts with % for a job specification (`%1` = fg %1),
+        // quoted or not: like a builtin, such a name cannot be run by any rendering
+        if s.starts_with('%') {
+            s.insert(0, '_');
         }
         s
     })
